@@ -182,6 +182,31 @@ def applyPost {EC AC} : Post → Res EC AC → CRes
   | .fnCastBack, r => .val (asVal r)
   | .other t, _ => .undefined ("post:" ++ t)
 
+/-! ## the adaptor nodes: a C function installed as comparator / copier, called by the C++ core -/
+
+/-- a two-argument C function called with the method's parameters in the extracted order -/
+def applyOrder2 {α β : Type} (order : List Nat) (f : α → α → β) (p0 p1 : α) : Option β :=
+  match order with
+  | [0, 1] => some (f p0 p1)
+  | [1, 0] => some (f p1 p0)
+  | [0, 0] => some (f p0 p0)
+  | [1, 1] => some (f p1 p1)
+  | _ => none
+
+def adaptorOrder (method : String) : List Nat :=
+  match Gen.CMock.adaptors.find? (fun a => a.method = method) with
+  | some a => a.order
+  | none => []
+
+/-- `MockCFunctionComparatorNode::isEqual(object1, object2)` over the C function `equal` (C `int`, `!= 0`);
+    the C++ core calls it as `isEqual(expected, actual)` -/
+def adaptIsEqual {α : Type} (equal : α → α → Int) (object1 object2 : α) : Option Bool :=
+  (applyOrder2 (adaptorOrder "isEqual") equal object1 object2).map (fun r => decide (r ≠ 0))
+
+/-- `MockCFunctionCopierNode::copy(dst, src)` over the C function `copier(dst, src)`; `σ` = memory -/
+def adaptCopy {α σ : Type} (copier : α → α → σ → σ) (dst src : α) (mem : σ) : Option σ :=
+  (applyOrder2 (adaptorOrder "copy") copier dst src).map (fun f => f mem)
+
 /-! ## the C layer -/
 
 /-- The three static pointers of MockSupport_c.cpp on top of the C++ world.  (The C++ program the scenario stands
